@@ -233,4 +233,6 @@ func runC04(res *lp.Result) {
 			res.Add(lp.Finding{Kind: "disagreement", What: "model/implementation differ on " + descr[i], Input: lines[i], Impl: exp, Model: a})
 		}
 	}
+	// the CQL value decoders (datacodec): mutated encodings into untyped and typed destinations
+	modes["C04V"](res)
 }
